@@ -22,6 +22,20 @@ CHECKS = {
         "One decoration pattern per scope (placement enumerated exhaustively, spelling fixed per seed); trusts mc/models/zo_model.py.",
         "§4 C02",
     ),
+    "C03": (
+        "exploration",
+        "exhaustive small-scope enumeration of filter programs x designed indexes on the real compiler + SQL repository, judged by an independent set-algebra evaluator over raw rows",
+        "Every atom of a 189-atom alphabet alone on three indexes and on sub-indexes of a six-note pool, every ordered pair under AND and OR (quick: over a third of the atoms), and every expression shape with up to 3 (thorough: 4) leaves and paren depth 2 over core alphabets is compiled by build_zorg_query and executed by SQLRepo.get_notes_by_query on an index built by the real db create; the returned ZID set (and absence of duplicates) must equal the set computed by mc/models/query_model.holds_* over the rows read back with sqlite3. Single atoms also go through the CLI.",
+        "Index contents are designed corpora plus sub-indexes of a pool, not all indexes; typed comparisons only on consistently typed keys; lower-case page names.",
+        "§4 C03",
+    ),
+    "C04": (
+        "exploration",
+        "exhaustive small-scope enumeration of abstract queries rendered to text and compiled by the real query compiler, compared structurally with the denoted Query",
+        "All select forms, every single atom (all 64 priority-range spellings, every operator/negation/quote/case form), every expression shape up to 3 leaves and paren depth 2, every ^/$ date form (short, d/m/y relative, negative, ranges) on 7 frozen calendar-edge days resolved by hand-written month arithmetic, all order/group lists up to length 2 (+ longer samples) in both clause orders with every subset of omitted clauses, keyword identifiers, and the CLI normalisation function. Each string must pass a well-formedness gate built from the repo's own generated lexer/parser (0 lexer errors, 0 parser errors, all input consumed); a rejected string is reported, never silently dropped.",
+        "Identifiers from the documented alphabet minus reserved tokens and 6-digit date-shaped words; file globs compared in stored form.",
+        "§4 C04",
+    ),
     "C07": (
         "model_checking",
         "exhaustive enumeration of the finite successor/allocation chain + explicit-state BFS over allocation histories on the real ZIDManager",
